@@ -947,6 +947,56 @@ def gen_cases(rng, tier, focus, n, stream):
     return out
 
 
+# ----------------------------------------------------------------------------- letter case (seeded change C13-6)
+# glob::glob matches case-sensitively (MatchOptions::new()); the DERIVED Default of MatchOptions has case_sensitive = false, so a
+# `glob_with(.., MatchOptions { .., ..Default::default() })` silently lists NOTES.TXT for "*.txt".  Visible only with a caller pattern
+# containing a letter and an entry that matches it up to letter case only: trees whose names come in case variants, patterns with letters
+# in every case.  Expectations are the model's / the oracle's (case-sensitive, Linux temp directories are).
+CASE_FILES = ["notes.txt", "NOTES.TXT", "Notes.Txt", "map.bin", "Map.BIN", "MAP.bin", "five.Bin", "a.lz", "A.LZ", "readme", "README", "x.TXT.bin"]
+CASE_DIRS = ["Subdir", "subdir", "SUBDIR", "nested", "Nested"]
+CASE_EXTS = ["txt", "TXT", "Txt", "bin", "BIN", "Bin", "lz", "LZ", "TXT.bin", "txt.bin"]
+assert all(plain_pattern_arg(x) for x in CASE_EXTS + CASE_DIRS)
+
+
+def case_variant_cases(rng, tier, stream="letter-case"):
+    n = 160 if tier == "quick" else 1600
+    out = []
+    for k in range(n):
+        game = SUPPORTED[k % 5]
+        lang = (k // 5) % 8
+        dirs = rng.sample(CASE_DIRS, 3)
+        files = set()
+        for _ in range(rng.randint(5, 10)):
+            depth = rng.choice([1, 2, 2, 3])
+            files.add("/".join([rng.choice(dirs) for _ in range(depth - 1)] + [rng.choice(CASE_FILES)]))
+        files = sorted(files)
+        contents = [b"", b"a", b"bc"]
+        layers = [build_layer(rng, files, contents, rng.choice([3, 5, 8])) for _ in range(rng.choice([1, 2, 2, 3]))]
+        listed = [""] + dirs + [d1 + "/" + d2 for d1 in dirs[:2] for d2 in dirs[:2]]
+        ops = []
+        for _ in range(rng.choice([6, 10, 14])):
+            r = rng.random()
+            d = rng.choice(listed)
+            if d and rng.random() < 0.1:
+                d += "/"
+            loc = 1 if rng.random() < 0.15 else 0
+            if r < 0.45:
+                ops.append(("L", loc, d, "PR" + L(rng.choice(CASE_EXTS))))
+            elif r < 0.75:
+                ops.append(("L", loc, d, "PE" + L(rng.choice(CASE_EXTS))))
+            elif r < 0.85:
+                ops.append(("L", loc, d, "PD" + L(rng.choice(CASE_DIRS))))
+            elif r < 0.9:
+                ops.append(("S", loc, d))
+            elif r < 0.95:
+                ops.append(("L", loc, d, rng.choice(["PA", "PS"])))
+            else:
+                ops.append(("W", 0, rng.choice(files), rng.choice(contents)))
+        assert all(wf_pattern(o[3]) for o in ops if o[0] == "L")
+        out.append(Case(render_case(FsCase(game, lang, layers, ops), fresh_base()), stream))
+    return out
+
+
 def exhaustive_cases(tier, stream="exhaustive-small"):
     """every history up to length 2 (thorough: 3) over a 13-call alphabet on three colliding paths, from five two-layer states"""
     import itertools
